@@ -18,15 +18,103 @@ Tactic Notation "finish" hyp(R) :=
 Definition sensible (m : mnem) (e : exprtype) : bool :=
   match e with ELabel _ => takes_label m | _ => negb (takes_label m) end.
 
-(** the reported size is the size of the encoding the assembler selects, whenever there is one *)
+(** * Where the emitted operand is, when the variable's address is known *)
+
+Lemma port_offset_nonneg : forall sch mm m, (0 <= port_offset sch mm m)%Z.
+Proof. intros sch mm m. unfold port_offset. destruct mm, sch, (AsmSel.is_st m); lia. Qed.
+
+Lemma port_offset_zp : forall sch v m, is_zp v = true -> port_offset sch (v_mem v) m = 0%Z.
+Proof. intros sch v m. unfold is_zp, port_offset. destruct (v_mem v); try discriminate. reflexivity. Qed.
+
+(** the repaired rule of the constant-pointer arm decides exactly "address + offset < $100" *)
+Lemma zp_rule : forall (zp : bool) a o,
+  (0 <= a)%Z -> zp = (a <? 256)%Z -> (0 <= o)%Z ->
+  zp && negb (255 <? a + o)%Z = (a + o <? 256)%Z.
+Proof.
+  intros zp a o A0 Zc O. subst zp.
+  destruct (Z.ltb_spec a 256), (Z.ltb_spec 255 (a + o)), (Z.ltb_spec (a + o) 256); cbn; try reflexivity; lia.
+Qed.
+
+Lemma printed_off_always : forall o : Z, (if negb (o =? 0)%Z then o else 0%Z) = o.
+Proof. intros o. destruct (Z.eqb_spec o 0); cbn; congruence. Qed.
+
+(** indexed operands of a constant pointer: [sym+port,X] is in page zero exactly for the
+    Zeropage class (split-port classes are never in page zero) *)
+Lemma zp_indexed : forall sch v m a,
+  (0 <= a)%Z -> is_zp v = (a <? 256)%Z ->
+  (a + (if (0 <? port_offset sch (v_mem v) m)%Z then port_offset sch (v_mem v) m else 0) <? 256)%Z = is_zp v.
+Proof.
+  intros sch v m a A0 Zc.
+  pose proof (port_offset_nonneg sch (v_mem v) m) as P.
+  destruct (is_zp v) eqn:Zp.
+  - rewrite (port_offset_zp sch v m Zp). cbn. rewrite Z.add_0_r. congruence.
+  - symmetry in Zc. apply Z.ltb_ge in Zc.
+    destruct (0 <? port_offset sch (v_mem v) m)%Z; apply Z.ltb_ge; lia.
+Qed.
+
+(** indexed operands: the truth side is the memory class, known address or not (used by the
+    legality theorems) *)
+Theorem resolve_absx_class : forall sch m v high m' sg em,
+  var_wf v ->
+  asm_sel sch m (EAbsoluteX v) high = AEmit m' sg em ->
+  resolve m' (shape_of (operand_of (e_op em))) (popnd_zp (EAbsoluteX v) (e_op em))
+  = resolve m' (shape_of (operand_of (e_op em))) (is_zp v).
+Proof.
+  intros sch m v high m' sg em W H.
+  unfold var_wf in W. unfold popnd_zp.
+  destruct (v_addr v) as [a|] eqn:A; [|reflexivity].
+  destruct W as (A0 & Zc & C & T).
+  pose proof (zp_indexed sch v m a A0 Zc) as ZI.
+  unfold asm_sel in H. rewrite T, C in H. cbv zeta in H. cbn [negb andb] in H.
+  destruct high; cbn [negb andb] in H.
+  - inv_emit H. reflexivity.
+  - destruct (is_zp v) eqn:Zp.
+    all: destruct m; cbn -[port_offset] in H.
+    all: try discriminate H.
+    all: inv_emit H.
+    all: cbn [e_op operand_of operand_off]; rewrite ZI; reflexivity.
+Qed.
+Print Assumptions resolve_absx_class.
+
+Theorem resolve_absy_class : forall sch m v high m' sg em,
+  var_wf v ->
+  asm_sel sch m (EAbsoluteY v) high = AEmit m' sg em ->
+  resolve m' (shape_of (operand_of (e_op em))) (popnd_zp (EAbsoluteY v) (e_op em))
+  = resolve m' (shape_of (operand_of (e_op em))) (is_zp v).
+Proof.
+  intros sch m v high m' sg em W H.
+  unfold var_wf in W. unfold popnd_zp.
+  destruct (v_addr v) as [a|] eqn:A; [|reflexivity].
+  destruct W as (A0 & Zc & C & T).
+  pose proof (zp_indexed sch v m a A0 Zc) as ZI.
+  unfold asm_sel in H. rewrite T, C in H. cbv zeta in H.
+  destruct high.
+  - inv_emit H. reflexivity.
+  - destruct (is_zp v) eqn:Zp.
+    all: destruct m; cbn -[port_offset] in H.
+    all: try discriminate H.
+    all: inv_emit H.
+    all: cbn [e_op operand_of operand_off]; rewrite ZI; reflexivity.
+Qed.
+Print Assumptions resolve_absy_class.
+
+Ltac case_zp R :=
+  match type of R with
+  | resolve _ _ ?z = _ => let b := fresh "b" in set (b := z) in R; clearbody b; destruct b
+  end.
+
+(** the reported size is the size of the encoding the assembler selects, whenever there is one.
+    [popnd_zp e (e_op em)] is where the emitted operand really is: decided from the known address
+    of a constant pointer and the printed offset, from the memory class otherwise *)
 Theorem asm_sel_size : forall sch m e high m' sg em md,
   sensible m e = true ->
+  expr_wf e -> expr_off_nonneg e ->
   asm_sel sch m e high = AEmit m' sg em ->
-  resolve m' (shape_of (operand_of (e_op em))) (popnd_zp e) = Some md ->
+  resolve m' (shape_of (operand_of (e_op em))) (popnd_zp e (e_op em)) = Some md ->
   mode_size md = e_bytes em.
 Proof.
-  intros sch m e high m' sg em md S H R.
-  destruct e as [ | v | s | [name ty c sgn mm sz] eight off | [name ty c sgn mm sz] | [name ty c sgn mm sz] | s | l ].
+  intros sch m e high m' sg em md S W O H R.
+  destruct e as [ | v | s | v eight off | v | v | s | l ].
   - (* Nothing *) cbn in H. inv_emit H. destruct m; try discriminate S.
     all: cbn in R.
     all: first [ discriminate R | (injection R as <-; reflexivity) ].
@@ -37,30 +125,64 @@ Proof.
     all: cbn in R.
     all: first [ discriminate R | (injection R as <-; reflexivity) ].
   - (* Absolute *)
-    unfold asm_sel in H; cbn [v_type v_mem v_const v_signed v_name v_size is_zp] in H.
-    destruct ty, mm, c, eight, high; cbn in H.
+    unfold expr_wf, var_wf in W; cbn [expr_var] in W. cbn [expr_off_nonneg] in O.
+    unfold popnd_zp in R.
+    destruct (v_addr v) as [a|] eqn:A.
+    + (* constant pointer at a known address *)
+      destruct W as (A0 & Zc & C & T).
+      pose proof (port_offset_nonneg sch (v_mem v) m) as P.
+      unfold asm_sel in H. rewrite T, C, A in H. cbv zeta in H.
+      destruct eight, high; cbn [negb andb] in H.
+      * (* #0 *) inv_emit H. case_zp R.
+        all: destruct m; try discriminate S.
+        all: cbn in R.
+        all: first [ discriminate R | (injection R as <-; reflexivity) ].
+      * (* R+off *)
+        rewrite (zp_rule _ a (off + port_offset sch (v_mem v) m)%Z A0 Zc ltac:(lia)) in H.
+        destruct (a + (off + port_offset sch (v_mem v) m) <? 256)%Z eqn:B.
+        all: inv_emit H.
+        all: cbn [e_op operand_of operand_off] in R; rewrite printed_off_always, B in R.
+        all: destruct m; try discriminate S.
+        all: cbn in R.
+        all: first [ discriminate R | (injection R as <-; reflexivity) ].
+      * (* #>R *) inv_emit H. case_zp R.
+        all: destruct m; try discriminate S.
+        all: cbn in R.
+        all: first [ discriminate R | (injection R as <-; reflexivity) ].
+      * (* #<R *) inv_emit H. case_zp R.
+        all: destruct m; try discriminate S.
+        all: cbn in R.
+        all: first [ discriminate R | (injection R as <-; reflexivity) ].
+    + (* address decided by the linker: memory class *)
+      destruct v as [name ty c sgn mm sz ad]. cbn in A; subst ad.
+      unfold asm_sel in H; cbn [v_type v_mem v_const v_signed v_name v_size v_addr is_zp] in H.
+      destruct ty, mm, c, eight, high; cbn in H.
+      all: try discriminate H.
+      all: inv_emit H.
+      all: destruct m; try discriminate S.
+      all: cbn in R.
+      all: first [ discriminate R | (injection R as <-; reflexivity) ].
+  - (* AbsoluteX: the class decides, known address or not *)
+    unfold expr_wf in W; cbn [expr_var] in W.
+    rewrite (resolve_absx_class _ _ _ _ _ _ _ W H) in R.
+    unfold asm_sel in H; cbv zeta in H.
+    destruct (v_size v =? 1)%Z; destruct (v_type v), (is_zp v), (v_const v), high; cbn -[port_offset] in H.
+    all: try discriminate H.
+    all: destruct m; try discriminate S; cbn -[port_offset] in H.
     all: try discriminate H.
     all: inv_emit H.
-    all: destruct m; try discriminate S.
-    all: cbn in R.
-    all: first [ discriminate R | (injection R as <-; reflexivity) ].
-  - (* AbsoluteX *)
-    unfold asm_sel in H; cbn [v_type v_mem v_const v_signed v_name v_size is_zp] in H.
-    destruct (sz =? 1)%Z; destruct ty, mm, c, high; cbn in H.
-    all: try discriminate H.
-    all: destruct m; try discriminate S; cbn in H.
-    all: try discriminate H.
-    all: inv_emit H.
-    all: cbn in R.
+    all: cbn -[port_offset] in R.
     all: first [ discriminate R | (injection R as <-; reflexivity) ].
   - (* AbsoluteY *)
-    unfold asm_sel in H; cbn [v_type v_mem v_const v_signed v_name v_size is_zp] in H.
-    destruct (sz =? 1)%Z; destruct ty, mm, c, high; cbn in H.
+    unfold expr_wf in W; cbn [expr_var] in W.
+    rewrite (resolve_absy_class _ _ _ _ _ _ _ W H) in R.
+    unfold asm_sel in H; cbv zeta in H.
+    destruct (v_size v =? 1)%Z; destruct (v_type v), (is_zp v), (v_const v), high; cbn -[port_offset] in H.
     all: try discriminate H.
-    all: destruct m; try discriminate S; cbn in H.
+    all: destruct m; try discriminate S; cbn -[port_offset] in H.
     all: try discriminate H.
     all: inv_emit H.
-    all: cbn in R.
+    all: cbn -[port_offset] in R.
     all: first [ discriminate R | (injection R as <-; reflexivity) ].
   - (* A *) destruct m; try discriminate S; cbn in H.
     all: try discriminate H.
@@ -73,3 +195,113 @@ Proof.
     all: first [ discriminate R | (injection R as <-; reflexivity) ].
 Qed.
 Print Assumptions asm_sel_size.
+
+(** for a constant pointer at a known address, the truth side is "address + final offset < $100":
+    final offset = requested offset + port offset (+1 for the high byte) *)
+Theorem popnd_zp_known_addr : forall sch m v eight off high m' sg em a y k ix al,
+  v_addr v = Some a ->
+  asm_sel sch m (EAbsolute v eight off) high = AEmit m' sg em ->
+  e_op em = PMem y k ix al -> al = true ->
+  k = (off + port_offset sch (v_mem v) m + if high then 1 else 0)%Z /\
+  popnd_zp (EAbsolute v eight off) (e_op em) = (a + k <? 256)%Z.
+Proof.
+  intros sch m v eight off high m' sg em a y k ix al A H E AL.
+  unfold popnd_zp. rewrite A, E. cbn [operand_of operand_off]. subst al. rewrite printed_off_always.
+  split; [|reflexivity].
+  unfold asm_sel in H; cbv zeta in H. rewrite A in H.
+  destruct (v_type v), (is_zp v), (v_const v), eight, high; cbn -[port_offset Z.add Z.ltb] in H.
+  all: try discriminate H.
+  all: try (destruct (255 <? _)%Z in H; cbn [negb] in H).
+  all: inv_emit H; cbn [e_op] in E; try discriminate E.
+  all: injection E as _ <- _; lia.
+Qed.
+Print Assumptions popnd_zp_known_addr.
+
+(** * The rule before the fix, and why the hypotheses are there *)
+
+(** [R] is a constant pointer to $ff (class Zeropage, well formed); [STA R[1]] prints [R+1],
+    address $100: the assembler has to use the 3-byte absolute form.  The pre-fix rule (2 bytes
+    whenever the class is Zeropage) reports 2; the repaired [asm_sel] reports 3. *)
+Example asm_sel_size_old_rule_refuted :
+  let R := mkVar "R" VCharPtr true false MZeropage 1 (Some 255%Z) in
+  let e := EAbsolute R true 1 in
+  sensible STA e = true /\ expr_wf e /\ expr_off_nonneg e /\
+  exists em,
+    asm_sel_old SOther STA e false = AEmit STA false em /\
+    print_popnd (e_op em) = "R+1"%string /\
+    popnd_zp e (e_op em) = false /\
+    resolve STA (shape_of (operand_of (e_op em))) (popnd_zp e (e_op em)) = Some Abs /\
+    mode_size Abs = 3%N /\ e_bytes em = 2%N /\
+    exists em',
+      asm_sel SOther STA e false = AEmit STA false em' /\
+      e_op em' = e_op em /\ e_bytes em' = 3%N /\ e_cycles em' = 4%N.
+Proof.
+  cbv zeta. split; [reflexivity|]. split.
+  { unfold expr_wf, var_wf; cbn. repeat split; discriminate. }
+  split; [unfold expr_off_nonneg; lia|].
+  eexists. split; [vm_compute; reflexivity|]. cbn [e_op e_bytes].
+  repeat split.
+  eexists. split; [vm_compute; reflexivity|]. repeat split.
+Qed.
+Print Assumptions asm_sel_size_old_rule_refuted.
+
+(** ... so the statement of [asm_sel_size] is false of the pre-fix rule *)
+Theorem asm_sel_old_size_fails :
+  ~ (forall sch m e high m' sg em md,
+       sensible m e = true -> expr_wf e -> expr_off_nonneg e ->
+       asm_sel_old sch m e high = AEmit m' sg em ->
+       resolve m' (shape_of (operand_of (e_op em))) (popnd_zp e (e_op em)) = Some md ->
+       mode_size md = e_bytes em).
+Proof.
+  intros F.
+  destruct asm_sel_size_old_rule_refuted as (S & W & O & em & H & _ & _ & R & _ & B & _).
+  specialize (F _ _ _ _ _ _ _ _ S W O H R). rewrite B in F. discriminate F.
+Qed.
+Print Assumptions asm_sel_old_size_fails.
+
+(** where no address is known the two rules coincide *)
+Theorem asm_sel_old_same_without_addr : forall sch m e high,
+  match expr_var e with Some v => v_addr v = None | None => True end ->
+  asm_sel_old sch m e high = asm_sel sch m e high.
+Proof.
+  intros sch m e high A. unfold asm_sel_old.
+  destruct e as [ | | | v ? ? | v | v | | ]; try reflexivity.
+  all: cbn in A; destruct v as [name ty c sgn mm sz ad]; cbn in A; subst ad; reflexivity.
+Qed.
+Print Assumptions asm_sel_old_same_without_addr.
+
+(** the offset hypothesis is needed: [R] at $100 (not in page zero), [LDA R[-1]] prints [R+-1],
+    address $ff: the assembler takes the 2-byte zero-page form, [asm()] reports 3.  The generator
+    never requests a negative offset. *)
+Example asm_sel_size_needs_nonneg_offset :
+  let R := mkVar "R" VCharPtr true false MOther 1 (Some 256%Z) in
+  let e := EAbsolute R true (-1) in
+  sensible LDA e = true /\ expr_wf e /\
+  exists em,
+    asm_sel SOther LDA e false = AEmit LDA false em /\
+    print_popnd (e_op em) = "R+-1"%string /\
+    resolve LDA (shape_of (operand_of (e_op em))) (popnd_zp e (e_op em)) = Some Zp /\
+    mode_size Zp = 2%N /\ e_bytes em = 3%N.
+Proof.
+  cbv zeta. split; [reflexivity|]. split.
+  { unfold expr_wf, var_wf; cbn. repeat split; discriminate. }
+  eexists. split; [vm_compute; reflexivity|]. repeat split.
+Qed.
+Print Assumptions asm_sel_size_needs_nonneg_offset.
+
+(** the class/address agreement is needed: a variable classified Zeropage whose address is $200
+    (the compiler never produces one) would get [LDA v,X] with 2 bytes against the 3 of [AbsX] *)
+Example asm_sel_size_needs_var_wf :
+  let v := mkVar "v" VCharPtr true false MZeropage 4 (Some 512%Z) in
+  let e := EAbsoluteX v in
+  sensible LDA e = true /\ ~ expr_wf e /\
+  exists em,
+    asm_sel SOther LDA e false = AEmit LDA false em /\
+    resolve LDA (shape_of (operand_of (e_op em))) (popnd_zp e (e_op em)) = Some AbsX /\
+    mode_size AbsX = 3%N /\ e_bytes em = 2%N.
+Proof.
+  cbv zeta. split; [reflexivity|]. split.
+  { unfold expr_wf, var_wf; cbn. intros (_ & E & _). discriminate E. }
+  eexists. split; [vm_compute; reflexivity|]. repeat split.
+Qed.
+Print Assumptions asm_sel_size_needs_var_wf.
